@@ -170,7 +170,37 @@ def unit(u, res):
                 cv = C.empty_context(with_builtins=(ctxkind == 'emptyb'))
             return cv
         body = C.method('Operator', 'eval')
-        if via in ('clone', 'clear_functions') and ctxkind == 'hashmap':
+        newflag = z3.Bool('new_disabled')
+        eff_flag = flag
+        if via == 'set_flag' and ctxkind == 'hashmap':
+            # the switch is switchable: set_builtin_functions_disabled(b) with b symbolic on a context whose previous flag is symbolic too
+            pre_body = C.method('HashMapContext', 'set_builtin_functions_disabled', trait='Context')
+            ex0, outs0 = C.run(pre_body, lambda st: [ref_to(st, mkctx(st), mut=True), newflag], pc=cons)
+            res.bodies |= ex0.bodies_used
+            if len(outs0) != 1 or outs0[0].kind != 'return':
+                res.inconclusive.append('context preparation %s produced %d paths' % (via, len(outs0)))
+                return
+            prepared = outs0[0].state.anchors[0].val
+            expect_user = bool(user_fn)
+            ctx_builder = lambda st: copy_value(prepared)
+            eff_flag = newflag
+        elif via == 'clone_from' and ctxkind == 'hashmap':
+            pre_body = C.p.find_method('Clone', 'HashMapContext', 'clone_from')
+            if pre_body is None:
+                res.obligations += 1
+                res.discharged += 1
+                return
+            other_flag = z3.Bool('other_disabled')
+            ex0, outs0 = C.run(pre_body, lambda st: [ref_to(st, build_context(C, st, variables=[('q', C.v_int(1))], functions=[], disabled=other_flag), mut=True),
+                                                     ref_to(st, mkctx(st))], pc=cons)
+            res.bodies |= ex0.bodies_used
+            if len(outs0) != 1 or outs0[0].kind != 'return':
+                res.inconclusive.append('context preparation %s produced %d paths' % (via, len(outs0)))
+                return
+            prepared = outs0[0].state.anchors[0].val
+            expect_user = bool(user_fn)
+            ctx_builder = lambda st: copy_value(prepared)
+        elif via in ('clone', 'clear_functions') and ctxkind == 'hashmap':
             # establish the configuration through the API first: clone the context / clear its functions, then dispatch
             pre_body = C.p.find_method('Clone', 'HashMapContext', 'clone') if via == 'clone' else C.method('HashMapContext', 'clear_functions')
             ex0, outs0 = C.run(pre_body, lambda st: [ref_to(st, mkctx(st), mut=True)], pc=cons)
@@ -216,7 +246,7 @@ def unit(u, res):
                 if user_calls:
                     claim = z3.BoolVal(False)
                 else:
-                    disabled = flag if ctxkind == 'hashmap' else z3.BoolVal(ctxkind == 'empty')
+                    disabled = eff_flag if ctxkind == 'hashmap' else z3.BoolVal(ctxkind == 'empty')
                     notfound = z3.BoolVal(o.value.variant == 1 and error_name(meta, o.value.fields[0]) == 'FunctionIdentifierNotFound'
                                           and o.value.fields[0].fields[0].concrete() == name)
                     if is_builtin:
@@ -227,8 +257,9 @@ def unit(u, res):
                         claim = notfound
             verdict, model = pr.prove('dispatch %s in %s' % (name, cfg), o.pc, claim)
             if verdict == 'sat':
-                dis = z3.is_true(model.eval(flag, model_completion=True)) if ctxkind == 'hashmap' else (ctxkind == 'empty')
-                res.sat.append(dict(key='resolution of %s name (user fn %s, disabled %s)' % ('builtin' if is_builtin else 'non-builtin', expect_user, dis), name=name, cfg=list(cfg), disabled=dis,
+                dis = z3.is_true(model.eval(eff_flag, model_completion=True)) if ctxkind == 'hashmap' else (ctxkind == 'empty')
+                pre_dis = z3.is_true(model.eval(flag, model_completion=True))
+                res.sat.append(dict(key='resolution of %s name (user fn %s, disabled %s)' % ('builtin' if is_builtin else 'non-builtin', expect_user, dis), name=name, cfg=list(cfg), disabled=dis, pre_disabled=(pre_dis if ctxkind == 'hashmap' else None),
                                     witness='%s(%s) in %s: %s' % (name, spec_concrete(vs, model), cfg, render_result(meta, o.value, model)), dispatch=True))
         if len(res.samples) < 1:
             res.samples.append(dict(unit='dispatch %s' % name, configuration=list(cfg), paths=len(outs)))
@@ -261,6 +292,11 @@ def replay_ce(ce):
                 ops = ['clone']
             elif via == 'clear_functions':
                 ops = ['clear_functions']
+            elif via == 'clone_from':
+                ops = ['clonefrom']
+            elif via == 'set_flag':
+                kw['disabled'] = bool(ce.get('pre_disabled'))
+                ops = ['disable %d' % (1 if ce.get('disabled') else 0)]
             ctxarg = {'hashmap': 'hashmap', 'empty': 'empty', 'emptyb': 'emptyb'}[ctxkind]
             if ctxkind != 'hashmap':
                 kw = dict(vars=[], funcs=[])
@@ -301,7 +337,7 @@ def main():
     cfgs = []
     for user_fn in (False, 'marker', 'fail'):
         for var_named in (False, True):
-            for via in ('direct', 'clone', 'clear_functions'):
+            for via in ('direct', 'clone', 'clear_functions', 'set_flag', 'clone_from'):
                 cfgs.append(('hashmap', user_fn, var_named, via))
     cfgs += [('empty', False, False, 'direct'), ('emptyb', False, False, 'direct')]
     names = c10.BUILTINS + ['foo', 'math::sinus', 'random']
